@@ -42,6 +42,7 @@ type Case struct {
 	Seeks     []int          `json:"seeks"`
 	SkipIndex bool           `json:"skipindex,omitempty"` // reader: SkipPageIndex(true)
 	Async     bool           `json:"async,omitempty"`     // reader: asynchronous read mode
+	Reused    bool           `json:"reused,omitempty"`    // the writer wrote (and closed) another encrypted file before, then was Reset
 }
 
 var leaves = []string{"string", "bytes", "int64", "flba:16", "uuid", "int32", "double", "bool"}
@@ -98,6 +99,7 @@ func genCase(t *rapid.T) Case {
 			Mask: byte(1 << uint(rapid.IntRange(0, 7).Draw(t, "tbit"))),
 		})
 	}
+	c.Reused = rapid.IntRange(0, 3).Draw(t, "reused") == 0
 	c.SkipIndex = rapid.IntRange(0, 2).Draw(t, "skipindex") == 0
 	c.Async = rapid.IntRange(0, 3).Draw(t, "async") == 0
 	ns := rapid.IntRange(0, 4).Draw(t, "nseeks")
@@ -238,7 +240,20 @@ func write(c Case, cols []ref.Column, rows []ref.V, cfg *parquet.EncryptionConfi
 	opts := append([]parquet.WriterOption{schema, parquet.WithEncryption(cfg)}, pq.Options(c.Opts, cols, "")...)
 	var buf bytes.Buffer
 	w := parquet.NewWriter(&buf, opts...)
-	if err := pq.ApplyOps(w, pq.Rows(&c.Schema, cols, rows), c.Ops); err != nil {
+	prows := pq.Rows(&c.Schema, cols, rows)
+	if c.Reused {
+		// an earlier file through the same writer: the first two thirds of the rows, several pages
+		var prior bytes.Buffer
+		w.Reset(&prior)
+		if _, err := w.WriteRows(prows[:len(prows)*2/3]); err != nil {
+			return nil, err
+		}
+		if err := w.Close(); err != nil {
+			return nil, err
+		}
+		w.Reset(&buf)
+	}
+	if err := pq.ApplyOps(w, prows, c.Ops); err != nil {
 		return nil, err
 	}
 	if err := w.Close(); err != nil {
@@ -549,6 +564,7 @@ func runCase(c Case, o *kit.Obs) *kit.Failure {
 	}
 	o.Class("footer-" + map[bool]string{true: "encrypted", false: "plaintext"}[c.EncFooter])
 	o.ClassIf(len(c.ColKeys) > 0, "column-keys")
+	o.ClassIf(c.Reused, "writer-reused-after-reset")
 	o.ClassIf(c.SkipIndex, "reader-without-page-index")
 	o.ClassIf(c.Async, "reader-async")
 	o.ClassIf(len(ef.RowGroups) >= 2, "multi-rowgroup")
